@@ -680,7 +680,17 @@ func (m *MonC15) AfterTx(o *TxOutcome) {
 	}
 	a := o.Pre.Assets[o.Step.Den]
 	tt := ratInt(a.TotalTokens)
-	b := budget(tt, 1, 8)
+	// same budget as C04: one unit plus ~a dozen 18-digit operations scaled by the share price, plus the
+	// module's 0.01-share tolerance
+	price := sharePrice(o.Pre, o.Val, o.Step.Den)
+	if p2 := sharePrice(o.Pre, o.Dst, o.Step.Den); p2.Cmp(price) > 0 {
+		price = p2
+	}
+	if p2 := sharePrice(o.Post, o.Dst, o.Step.Den); p2.Cmp(price) > 0 {
+		price = p2
+	}
+	b := budget(new(big.Rat).Mul(tt, price), 1, 24)
+	b.Add(b, new(big.Rat).Mul(big.NewRat(1, 50), price))
 	amt := ratInt(o.Amount)
 	_, dstExisted := o.Pre.Dels[dst]
 	full := o.Pre.Reported(src).Cmp(o.Amount.BigInt()) == 0
